@@ -320,7 +320,9 @@ def validate_ledger(v, hooks_path, cases_path, tag="ledger", chunk_lines=250000)
             if m:
                 rej.append((int(m.group(1)) + off, m.group(2)))
         os.remove(cp)
-        if not t["ok"] and failed is None:
+        if t["ok"]:
+            os.remove(t["out"])
+        elif failed is None:
             failed = t["tail"]
     if rej:
         cases = list(read_ndjson(cases_path))
